@@ -124,7 +124,8 @@ def _call(draw: st.DrawFn, methods: list[dict[str, Any]]) -> tuple[dict[str, Any
         if c["inputs"] and draw(st.integers(0, 15)) == 7:
             # client error inside a history: this input is sent with its first column renamed, so the server must
             # reject it (schema mismatch).  Only accounting and shm ≡ inline are judged for such a call.
-            c["bad_input"] = draw(st.integers(0, len(c["inputs"]) - 1))
+            # (always the first input: one IPC input stream carries one schema, a later change is refused client-side)
+            c["bad_input"] = 0
     tg = {p["name"]: draw(_target) for p in m["params"] if p["type"] in ("str", "bytes")}
     if tg:
         c["arg_targets"] = tg
